@@ -114,11 +114,11 @@ func (g *c09Gen) node(depth int) MNode {
 	case "for":
 		g.ids++
 		v := fmt.Sprintf("v%d", g.ids)
-		src := pick(g.t, "src", []string{"l0", "l1", "l3", "l6", "sl", "e0", "su", "sx", "m2", "m0", "nothing", "i5"})
+		src := pick(g.t, "src", []string{"l0", "l1", "l3", "l6", "sl", "e0", "su", "sx", "m2", "m0", "nothing", "i5", "fl", "mi"})
 		e := ME{K: "name", N: src}
 		nd := MNode{K: "for", Name: v, E: &e, Rev: drawInt(g.t, 0, 2, "rev") == 0, Sorted: drawInt(g.t, 0, 2, "sorted") == 0}
 		vars := []string{v}
-		if src == "m2" || src == "m0" {
+		if src == "m2" || src == "m0" || src == "mi" {
 			nd.Sorted = true // maps only in sorted order (unsorted order is Go's)
 			if drawBool(g.t, "kv") {
 				nd.Name2 = v + "v"
@@ -198,7 +198,8 @@ func c09Ctx(t *rapid.T) Val {
 	pickInts := func(l string, n int) Val {
 		v := Val{K: "ints"}
 		for i := 0; i < n; i++ {
-			v.E = append(v.E, vInt(drawInt(t, 0, 4, l)))
+			// (values on both sides of 10 and of 0: numeric order differs from the order of their texts)
+			v.E = append(v.E, vInt(pick(t, l, []int{0, 1, 2, 3, 4, 9, 10, 11, 100, -1, -10})))
 		}
 		return v
 	}
@@ -209,6 +210,8 @@ func c09Ctx(t *rapid.T) Val {
 		"sl", vStrs("b", "a", "b", "é"), "e0", vStrs(),
 		"m2", Val{K: "mapSI", Ks: []Val{vStr("kb"), vStr("ka"), vStr("kc")}, E: []Val{vInt(2), vInt(1), vInt(3)}},
 		"m0", Val{K: "mapSI"},
+		"fl", Val{K: "f64s", E: []Val{vF64(2.5), vF64(10), vF64(-1.5), vF64(2.25), vF64(100)}},
+		"mi", Val{K: "mapIS", Ks: []Val{vInt(10), vInt(9), vInt(-1), vInt(100), vInt(2)}, E: []Val{vStr("ten"), vStr("nine"), vStr("minus"), vStr("hundred"), vStr("two")}},
 	)
 }
 
